@@ -106,9 +106,10 @@ k("c12_hasher_flow", "hasher::FileHasher::hash_file + load_hash + store_hash + c
 for _w in ("remove", "unsafe_rename", "hardlink", "symlink", "unsafe_copy", "mkdirs", "check_can_rename"):
     k("wrapper_" + _w, "dedupe::FsCommand::%s [body refines its contract over std::fs]" % _w, t=600)
 WRAPPERS = ["wrapper_" + _w for _w in ("remove", "unsafe_rename", "hardlink", "symlink", "unsafe_copy", "mkdirs", "check_can_rename")]
-# NOT USED by any property (measured: out of memory at 24 GB / no result in 40 min, DESIGN F24b): the same units with the
-# real wrapper bodies inlined (ghost file system at the std::fs level only). The modular route - wrapper refinement units +
-# callers against the wrapper contracts - decides the same obligations.
+# thorough tier (C05): the same units with the real wrapper bodies inlined (ghost file system at the std::fs level only;
+# per-call nondeterministic faults, one constant error kind). Measured: 40-380 s each. The four `move` variants (STD_C18) run
+# out of memory at 24 GB / time out after 40 min and are NOT used by any property (DESIGN F24b): the modular route - wrapper
+# refinement units + callers against the wrapper contracts - decides the same obligations.
 for _h, _f in (("c05_safe_remove_std", "safe_remove"), ("c05_execute_remove_std", "execute [Remove]"),
                ("c05_execute_hardlink_std", "execute [HardLink]"), ("c05_execute_softlink_std", "execute [SoftLink]"),
                ("c05_linux_reflink_std", "linux_reflink"), ("c05_execute_reflink_std", "execute [RefLink]"),
@@ -142,7 +143,7 @@ GHOST_FS_TRUST = [
 
 PROPS = {
     "C05": dict(
-        kani=C05_FAMILY + C18_FAMILY + WRAPPERS + ["c05_safe_remove_std", "c05_execute_remove_std"],
+        kani=C05_FAMILY + C18_FAMILY + WRAPPERS + STD_C05,
         verus=[],
         prefixes=["C05.", "C02.execute_frame."],
         category="proof",
